@@ -295,6 +295,15 @@ func (p *bprover) lenOf(v ssa.Value, at *ssa.BasicBlock) lin {
 		if mv, ok := p.loadVer[x]; ok {
 			return p.lenOfMem(mv, at)
 		}
+		// a local slice variable whose address was taken (`c.do(…, &resp, …)`): loads that see the same last
+		// write denote the same slice
+		if al, ok := x.X.(*ssa.Alloc); ok && x.Op == token.MUL {
+			if ver := cellVersion(al, x); ver != nil {
+				a := "len(" + p.id(al) + "@" + p.id(ver.(ssa.Value)) + ")"
+				p.axioms[a] = true
+				return atomLin(a)
+			}
+		}
 	}
 	if key, ok := p.paramFieldKey(v); ok {
 		a := "len(" + key + ")"
@@ -1239,4 +1248,71 @@ func (p *bprover) callVersion(call *ssa.Call) *memVersion {
 	}
 	p.callVers[call] = mv
 	return mv
+}
+
+// cellVersion: the last instruction that may have written the cell before the load (a store to it, or a call
+// that receives its address), when that is the same on every path: it dominates the load and no other such
+// instruction lies between the two.  nil when there is no unique one.
+func cellVersion(al *ssa.Alloc, load *ssa.UnOp) ssa.Instruction {
+	var clobbers []ssa.Instruction
+	addrs := map[ssa.Value]bool{al: true}
+	for _, ref := range *al.Referrers() {
+		if mi, ok := ref.(*ssa.MakeInterface); ok {
+			addrs[mi] = true
+		}
+	}
+	for a := range addrs {
+		for _, ref := range *a.Referrers() {
+			switch x := ref.(type) {
+			case *ssa.Store:
+				if x.Addr == ssa.Value(al) {
+					clobbers = append(clobbers, x)
+				} else if x.Val == a {
+					return nil // the address is stored somewhere: anything may write the cell
+				}
+			case ssa.CallInstruction:
+				if _, isVal := x.(ssa.Value); isVal {
+					clobbers = append(clobbers, x)
+				} else {
+					return nil // go / defer with the address
+				}
+			case *ssa.UnOp, *ssa.MakeInterface, *ssa.DebugRef:
+			default:
+				return nil
+			}
+		}
+	}
+	var chosen ssa.Instruction
+	for _, c := range clobbers {
+		if !dominatesInstr(c, load) {
+			continue
+		}
+		if chosen == nil || dominatesInstr(chosen, c) {
+			chosen = c
+		}
+	}
+	if chosen == nil {
+		return nil
+	}
+	if _, isVal := chosen.(ssa.Value); !isVal {
+		// a store has no value of its own to name the version by: use the stored value's producer when it is an instruction
+		st := chosen.(*ssa.Store)
+		if vi, ok := st.Val.(ssa.Instruction); ok {
+			_ = vi
+		}
+	}
+	for _, c := range clobbers {
+		if c == chosen {
+			continue
+		}
+		r1, _ := reach(siteOf(chosen), isInstr(c), nil)
+		r2, _ := reach(siteOf(c), isInstr(load), nil)
+		if r1 && r2 {
+			return nil
+		}
+	}
+	if _, isVal := chosen.(ssa.Value); !isVal {
+		return nil
+	}
+	return chosen
 }
